@@ -382,6 +382,16 @@ var (
 	textsExt  = []string{"", "ab\x1b[33mcd\x1b[0mef", "\x1b[1m\x1b[4mxyz\x1b[0m", "✤✤✤✤", "\x1b[0m"}
 	linesExt  = []int{0, 1, 3}
 	trimToks  = []string{"a", "b", "é", "\x1b[31m", "\x1b[0m", "\x1b[38;5;196m"}
+	// Single-column non-ASCII characters of every UTF-8 length and of several
+	// Unicode categories (Zs spaces for which unicode.IsPrint is false, a letter,
+	// a symbol), next to ASCII and colour escapes. Every one of them occupies
+	// exactly one column (East Asian Width N/Na/A-narrow). Double-width glyphs
+	// (CJK, U+3000) and control characters are deliberately NOT in the alphabet:
+	// their column width depends on the terminal (see Assumptions).
+	trimToksWide = []string{"a", "\u00a0", "\u2007", "\u202f", "é", "\u1e9e", "\U0001d11e", "\x1b[31m", "\x1b[0m"}
+	// the same characters inside whole lines, for the update-sequence passes
+	textsWide = []string{"", "a\u00a0b\u2007c\u202fd", "\x1b[31m\u00a0\u1e9e\x1b[0m\u202f\U0001d11ex", "\u2007\u2007\x1b[1m\u00a0\u00a0\x1b[0m", "\U0001d11e\u1e9eé"}
+	linesWide = []int{0, 1, 3}
 )
 
 type cfg struct {
@@ -400,17 +410,26 @@ type pass struct {
 func passes(quick bool) []pass {
 	base := []cfg{{1, true}, {3, true}, {5, true}, {80, true}, {80, false}}
 	ext := []cfg{{2, true}, {4, true}, {6, true}, {4, false}}
+	wide := []cfg{{1, true}, {2, true}, {3, true}, {5, true}, {7, true}, {3, false}}
 	if quick {
-		return []pass{{"base", linesBase, textsBase, 4, base}, {"ext", linesExt, textsExt, 3, ext}}
+		return []pass{{"base", linesBase, textsBase, 4, base}, {"ext", linesExt, textsExt, 3, ext}, {"wide", linesWide, textsWide, 3, wide}}
 	}
-	return []pass{{"base", linesBase, textsBase, 5, base}, {"ext", linesExt, textsExt, 4, ext}}
+	return []pass{{"base", linesBase, textsBase, 5, base}, {"ext", linesExt, textsExt, 4, ext}, {"wide", linesWide, textsWide, 4, wide}}
 }
 
-func trimLen(quick bool) int {
+// trimPass: one token alphabet for the WriteLineNoWrap pass and the maximum
+// number of tokens concatenated.
+type trimPass struct {
+	name   string
+	toks   []string
+	maxLen int
+}
+
+func trimPasses(quick bool) []trimPass {
 	if quick {
-		return 5
+		return []trimPass{{"ascii", trimToks, 5}, {"wide", trimToksWide, 5}}
 	}
-	return 7
+	return []trimPass{{"ascii", trimToks, 7}, {"wide", trimToksWide, 6}}
 }
 
 var trimWidths = []int{1, 2, 3, 4, 5, 80}
@@ -444,44 +463,46 @@ func worker(w *runner.W) {
 	defer cap.close()
 	var caseNo int64
 
-	// pass 0: WriteLineNoWrap on every token string
-	maxTok := trimLen(w.Quick())
-	idx := make([]int, 0, maxTok)
-	var rec func() bool
-	rec = func() bool {
-		text := ""
-		for _, k := range idx {
-			text += trimToks[k]
-		}
-		for _, wd := range trimWidths {
+	// pass 0: WriteLineNoWrap on every token string of every token alphabet
+	for _, tp := range trimPasses(w.Quick()) {
+		toks, maxTok := tp.toks, tp.maxLen
+		idx := make([]int, 0, maxTok)
+		var rec func() bool
+		rec = func() bool {
+			text := ""
+			for _, k := range idx {
+				text += toks[k]
+			}
+			for _, wd := range trimWidths {
+				caseNo++
+				if w.Owns(caseNo) {
+					c := Case{Kind: "trimline", Width: wd, Trim: true, Text: text}
+					w.SetCase(func() any { return c })
+					report(w, c, runTrimLine(c))
+				}
+			}
 			caseNo++
 			if w.Owns(caseNo) {
-				c := Case{Kind: "trimline", Width: wd, Trim: true, Text: text}
+				c := Case{Kind: "trimline", Width: 3, Trim: false, Text: text}
 				w.SetCase(func() any { return c })
 				report(w, c, runTrimLine(c))
 			}
-		}
-		caseNo++
-		if w.Owns(caseNo) {
-			c := Case{Kind: "trimline", Width: 3, Trim: false, Text: text}
-			w.SetCase(func() any { return c })
-			report(w, c, runTrimLine(c))
-		}
-		if len(idx) == maxTok {
-			return true
-		}
-		for k := range trimToks {
-			idx = append(idx, k)
-			ok := rec()
-			idx = idx[:len(idx)-1]
-			if !ok {
-				return false
+			if len(idx) == maxTok {
+				return true
 			}
+			for k := range toks {
+				idx = append(idx, k)
+				ok := rec()
+				idx = idx[:len(idx)-1]
+				if !ok {
+					return false
+				}
+			}
+			return !w.Expired()
 		}
-		return !w.Expired()
-	}
-	if !rec() {
-		return
+		if !rec() {
+			return
+		}
 	}
 
 	for _, ps := range passes(w.Quick()) {
